@@ -135,6 +135,7 @@ Info = ObjT("ModificationInfo")
 @contract("modifiers.py", "PolyATrimmer.__call__", props=["C14"])
 def polya_trimmer_call(c):
     c.types(self=PolyA, record=Record, info=Info)
+    c.modifies = ["self.trimmed_bases"]
     c.spec(polya_spec)
     c.requires(size="len(record.sequence) <= 2097152",
                same_length="is_none(record.qualities) or len(val(record.qualities)) == len(record.sequence)")
